@@ -102,7 +102,8 @@ def install_cooperative_locks():
 
 
 class BatonScheduler(object):
-    def __init__(self, order, preempts, granularity, watch, max_steps=200000, join_timeout=30.0, ticks=None, clock=None):
+    def __init__(self, order, preempts, granularity, watch, max_steps=200000, join_timeout=30.0, ticks=None, clock=None,
+                 hot_funcs=(), hot_bits=(), record_funcs=False):
         self.order = list(order)
         self.pre = {}
         for step, target in preempts:
@@ -111,6 +112,12 @@ class BatonScheduler(object):
         self.ticks = dict((int(st), dt) for st, dt in (ticks or []))     # yield point -> the simulated clock jumps by dt
         self.clock = clock
         self.watch = tuple(watch)
+        # function-focused pre-emption: at every yield point inside a function named in hot_funcs the next planned
+        # bit decides whether the runner is parked there and the next live thread (round robin) runs
+        self.hot = frozenset(hot_funcs or ())
+        self.hot_bits = list(hot_bits or ())
+        self.hot_i = 0
+        self.func_steps = {} if record_funcs else None
         self.max_steps = max_steps
         self.join_timeout = join_timeout
         self.cv = threading.Condition(_REAL_LOCK())
@@ -143,10 +150,22 @@ class BatonScheduler(object):
             dt = self.ticks.get(self.steps)
             if dt:
                 self.clock.advance(dt)
+        if self.func_steps is not None:
+            self.func_steps[code.co_name] = self.func_steps.get(code.co_name, 0) + 1
         target = self.pre.get(self.steps)
+        if target is None and self.hot and code.co_name in self.hot and self.hot_i < len(self.hot_bits) and len(self.alive) >= 2:
+            bit = self.hot_bits[self.hot_i]
+            self.hot_i += 1
+            if bit:
+                target = 'next'
         if target is None or len(self.alive) < 2 or self.steps > self.max_steps:
             return
-        if target == 'demote':
+        if target == 'next':
+            live = [n for n in self.order if n in self.alive]
+            nxt = live[(live.index(me) + 1) % len(live)] if me in live else None
+            if nxt == me:
+                nxt = None
+        elif target == 'demote':
             self.order.remove(me)
             self.order.append(me)
             nxt = None
